@@ -82,7 +82,11 @@ package generic
 // ---- nodes --------------------------------------------------------------------------------------------
 // A non-error node is a window [v, v+l) of valid bytes.
 // An error node made by errNode carries a pointer to a meta.Error (40 bytes) unless it is the "not found, last" marker.
-//@ typeinv Node as n = windowif(n.t != thrift.ERROR, n.v, n.l) && windowif(n.t == thrift.ERROR && n.et != 1 && n.v != nil, n.v, 40)
+// Container nodes cache their element/key type from the first header bytes.
+//@ pure nmeta(t thrift.Type, et thrift.Type, kt thrift.Type, v unsafe.Pointer, l int) bool = \
+//@      (((t == thrift.LIST || t == thrift.SET) && l >= 1) ==> et == thrift.Type(byteat(v, 0))) && \
+//@      ((t == thrift.MAP && l >= 2) ==> kt == thrift.Type(byteat(v, 0)) && et == thrift.Type(byteat(v, 1)))
+//@ typeinv Node as n = windowif(n.t != thrift.ERROR, n.v, n.l) && windowif(n.t == thrift.ERROR && n.et != 1 && n.v != nil, n.v, 40) && nmeta(n.t, n.et, n.kt, n.v, n.l)
 
 //@ spec (Node).slice
 //@   props C01 C06 C04
@@ -128,3 +132,129 @@ package generic
 //@   ensures fresh: fresh(r0.v) && r0.l == self.l && r0.t == self.t && r0.et == self.et && r0.kt == self.kt
 //@   ensures bytes: forall i :: 0 <= i && i < self.l ==> byteat(r0.v, i) == byteat(self.v, i)
 //@   ensures valid: windowif(true, r0.v, r0.l)
+
+// ---- iterators -------------------------------------------------------------------------------------------
+//@ typeinv *structIterator as it = it != nil && 0 <= it.p.Read && it.p.Read <= len(it.p.Buf)
+//@ typeinv structIterator as it = 0 <= it.p.Read && it.p.Read <= len(it.p.Buf)
+//@ typeinv *listIterator as it = it != nil && 0 <= it.p.Read && it.p.Read <= len(it.p.Buf)
+//@ typeinv listIterator as it = 0 <= it.p.Read && it.p.Read <= len(it.p.Buf)
+//@ typeinv *mapIterator as it = it != nil && 0 <= it.p.Read && it.p.Read <= len(it.p.Buf)
+//@ typeinv mapIterator as it = 0 <= it.p.Read && it.p.Read <= len(it.p.Buf)
+
+// the iterator reads the node's own window
+//@ template iter_over(fi)
+//@   requires live: self.t != thrift.ERROR
+//@   ensures buf: samerg(fi.p.Buf, self.v) && offset(fi.p.Buf) == offset(self.v) && len(fi.p.Buf) == self.l
+//@   ensures cur: 0 <= fi.p.Read && fi.p.Read <= len(fi.p.Buf)
+//@ end
+
+//@ spec (Node).iterFields
+//@   props C01 C06
+//@   use iter_over(fi)
+//@   ensures start: fi.Err == nil && fi.p.Read == 0
+
+//@ spec (Node).iterElems
+//@   props C01 C06
+//@   use iter_over(fi)
+//@   ensures hdr: fi.Err == nil ==> fi.p.Read == 5 && fi.k == 0 && fi.size >= 0 && fi.et == thrift.Type(byteat(self.v, 0))
+
+//@ spec (Node).iterPairs
+//@   props C01 C06
+//@   use iter_over(fi)
+//@   ensures hdr: fi.Err == nil ==> fi.p.Read == 6 && fi.i == 0 && fi.size >= 0 && fi.kt == thrift.Type(byteat(self.v, 0)) && fi.et == thrift.Type(byteat(self.v, 1))
+
+//@ spec (structIterator).HasNext
+//@   props C01 C06
+//@   ensures r0 ==> it.Err == nil && it.p.Read < len(it.p.Buf)
+
+//@ spec (listIterator).HasNext
+//@   props C01 C06
+//@   ensures r0 ==> it.Err == nil && it.p.Read < len(it.p.Buf) && it.k < it.size
+
+//@ spec (mapIterator).HasNext
+//@   props C01 C06
+//@   ensures r0 ==> it.Err == nil && it.p.Read < len(it.p.Buf) && it.i < it.size
+
+// Next: on success [start, end) is the value's span inside the buffer and the cursor sits at end
+//@ spec (*structIterator).Next
+//@   props C01 C06
+//@   ensures mono: old(it.p.Read) <= it.p.Read && same(it.p.Buf, old(it.p.Buf)) && len(it.p.Buf) == old(len(it.p.Buf))
+//@   ensures span: it.Err == nil && typ != 0 ==> start == old(it.p.Read) + 3 && start <= end && end == it.p.Read && end - start >= thrift.tmin(typ) && \
+//@       typ == thrift.Type(it.p.Buf[old(it.p.Read)]) && id == thrift.FieldID(thrift.be16(it.p.Buf, old(it.p.Read)+1))
+//@   ensures exact: it.Err == nil && typ != 0 ==> end == start + thrift.tsz(it.p.Buf, start, typ)
+//@   ensures failed: old(it.Err) == nil && it.Err != nil ==> end == 0 && id == 0
+//@   ensures stop: old(it.Err) == nil && it.Err == nil && typ == 0 ==> id == 0 && start == 0 && end == 0
+//@   ensures progress: old(it.Err) == nil && it.Err == nil ==> it.p.Read > old(it.p.Read)
+//@   modifies it.Err, it.p.Read
+
+//@ spec (*listIterator).Next
+//@   props C01 C06
+//@   ensures mono: old(it.p.Read) <= it.p.Read && same(it.p.Buf, old(it.p.Buf)) && len(it.p.Buf) == old(len(it.p.Buf)) && it.et == old(it.et) && it.size == old(it.size)
+//@   ensures span: old(it.Err) == nil && it.Err == nil ==> start == old(it.p.Read) && start <= end && end == it.p.Read && end - start >= thrift.tmin(it.et) && it.k == old(it.k) + 1
+//@   ensures exact: old(it.Err) == nil && it.Err == nil ==> end == start + thrift.tsz(it.p.Buf, start, it.et)
+//@   ensures failed: it.Err != nil ==> start == old(it.p.Read) && (old(it.Err) == nil ==> end == 0)
+//@   modifies it.Err, it.p.Read, it.k
+
+// ---- single-step accessors: never panic; a non-error result is a valid window inside the receiver ---------
+//@ template accessor()
+//@   requires live: self.t != thrift.ERROR && self.t != thrift.STOP
+//@   ensures inside: v.t != thrift.ERROR ==> samerg(v.v, self.v) && offset(v.v) >= offset(self.v) && offset(v.v) + v.l <= offset(self.v) + self.l && v.l >= 0
+//@   ensures valid: windowif(v.t != thrift.ERROR, v.v, v.l)
+//@ end
+
+//@ spec (Node).Field
+//@   props C01 C06
+//@   use accessor()
+//@   loop 1
+//@     invariant buf: samerg(it.p.Buf, self.v) && offset(it.p.Buf) == offset(self.v) && len(it.p.Buf) == self.l && 0 <= it.p.Read && it.p.Read <= len(it.p.Buf)
+//@     decreases len(it.p.Buf) - it.p.Read
+
+//@ spec (Node).Index
+//@   props C01 C06
+//@   use accessor()
+//@   ensures negative: i < 0 ==> v.t == thrift.ERROR
+//@   loop 1
+//@     invariant buf: samerg(it.p.Buf, self.v) && offset(it.p.Buf) == offset(self.v) && len(it.p.Buf) == self.l && 0 <= it.p.Read && it.p.Read <= len(it.p.Buf) && it.et == self.et
+//@     decreases i - j
+
+//@ spec (Node).GetByStr
+//@   props C01 C06
+//@   use accessor()
+//@   loop 1
+//@     invariant buf: samerg(it.p.Buf, self.v) && offset(it.p.Buf) == offset(self.v) && len(it.p.Buf) == self.l && 0 <= it.p.Read && it.p.Read <= len(it.p.Buf) && it.et == self.et
+//@     decreases len(it.p.Buf) - it.p.Read
+
+//@ spec (Node).GetByInt
+//@   props C01 C06
+//@   use accessor()
+//@   loop 1
+//@     invariant buf: samerg(it.p.Buf, self.v) && offset(it.p.Buf) == offset(self.v) && len(it.p.Buf) == self.l && 0 <= it.p.Read && it.p.Read <= len(it.p.Buf) && it.et == self.et
+//@     decreases len(it.p.Buf) - it.p.Read
+
+//@ spec (Node).GetByRaw
+//@   props C01 C06
+//@   use accessor()
+//@   loop 1
+//@     invariant buf: samerg(it.p.Buf, self.v) && offset(it.p.Buf) == offset(self.v) && len(it.p.Buf) == self.l && 0 <= it.p.Read && it.p.Read <= len(it.p.Buf) && it.et == self.et
+//@     decreases len(it.p.Buf) - it.p.Read
+
+//@ spec (*mapIterator).NextStr
+//@   props C01 C06
+//@   ensures mono: old(it.p.Read) <= it.p.Read && same(it.p.Buf, old(it.p.Buf)) && len(it.p.Buf) == old(len(it.p.Buf)) && it.et == old(it.et) && it.kt == old(it.kt) && it.size == old(it.size)
+//@   ensures span: old(it.Err) == nil && it.Err == nil ==> old(it.p.Read) + 4 <= start && start <= end && end == it.p.Read && end - start >= thrift.tmin(it.et) && it.i == old(it.i) + 1
+//@   ensures failed: old(it.Err) == nil && it.Err != nil ==> end == 0
+//@   modifies it.Err, it.p.Read, it.i
+
+//@ spec (*mapIterator).NextInt
+//@   props C01 C06
+//@   ensures mono: old(it.p.Read) <= it.p.Read && same(it.p.Buf, old(it.p.Buf)) && len(it.p.Buf) == old(len(it.p.Buf)) && it.et == old(it.et) && it.kt == old(it.kt) && it.size == old(it.size)
+//@   ensures span: old(it.Err) == nil && it.Err == nil ==> old(it.p.Read) + 1 <= start && start <= end && end == it.p.Read && end - start >= thrift.tmin(it.et) && it.i == old(it.i) + 1
+//@   modifies it.Err, it.p.Read, it.i
+
+//@ spec (*mapIterator).NextBin
+//@   props C01 C06
+//@   ensures progress: old(it.Err) == nil && it.Err == nil ==> it.p.Read > old(it.p.Read)
+//@   ensures mono: old(it.p.Read) <= it.p.Read && same(it.p.Buf, old(it.p.Buf)) && len(it.p.Buf) == old(len(it.p.Buf)) && it.et == old(it.et) && it.kt == old(it.kt) && it.size == old(it.size)
+//@   ensures span: old(it.Err) == nil && it.Err == nil ==> old(it.p.Read) <= start && start <= end && end == it.p.Read && end - start >= thrift.tmin(it.et) && it.i == old(it.i) + 1
+//@   ensures failed: old(it.Err) == nil && it.Err != nil ==> end == 0
+//@   modifies it.Err, it.p.Read, it.i
